@@ -1,5 +1,38 @@
+#![allow(dead_code, unused_imports, unused_variables)]
+#[path = "/repo/src/config/mod.rs"]
+pub mod config;
+#[path = "/repo/src/fixtures/mod.rs"]
+pub mod fixtures;
+use std::path::PathBuf;
+
 fn main() {
-    let src = std::fs::read_to_string(std::env::args().nth(1).unwrap()).unwrap();
-    let m = rustpython_parser::parse(&src, rustpython_parser::Mode::Module, "").unwrap();
-    println!("{:?}", m);
+    let a: Vec<String> = std::env::args().collect();
+    match a[1].as_str() {
+        "ast" => {
+            let src = std::fs::read_to_string(&a[2]).unwrap();
+            match rustpython_parser::parse(&src, rustpython_parser::Mode::Module, "") {
+                Ok(m) => println!("{:?}", m),
+                Err(_) => std::process::exit(3),
+            }
+        }
+        "fresh" => {
+            let p = PathBuf::from(&a[2]);
+            let src = std::fs::read_to_string(&a[3]).unwrap();
+            let db = fixtures::FixtureDatabase::new();
+            db.analyze_file(p.clone(), &src);
+            let mut defs = Vec::new();
+            let mut names: Vec<String> = db.definitions.iter().map(|e| e.key().clone()).collect();
+            names.sort();
+            for n in &names { for d in db.definitions.get(n).unwrap().iter() { if d.file_path == p { defs.push(d.clone()); } } }
+            let usages = db.usages.get(&p).map(|u| u.value().clone()).unwrap_or_default();
+            let undeclared = db.undeclared_fixtures.get(&p).map(|u| u.value().clone()).unwrap_or_default();
+            let mut imports: Vec<String> = db.imports.get(&p).map(|s| s.value().iter().cloned().collect()).unwrap_or_default();
+            imports.sort();
+            let mut def_names: Vec<String> = db.file_definitions.get(&p).map(|s| s.value().iter().cloned().collect()).unwrap_or_default();
+            def_names.sort();
+            println!("Fresh {{ defs: {:?}, usages: {:?}, undeclared: {:?}, imports: {:?}, def_names: {:?}, has_imports_entry: {:?} }}",
+                     defs, usages, undeclared, imports, def_names, db.imports.contains_key(&p));
+        }
+        _ => std::process::exit(2),
+    }
 }
